@@ -27,6 +27,8 @@ func main() {
 		os.Exit(cmdCheck(os.Args[2:]))
 	case "replay":
 		os.Exit(cmdReplay(os.Args[2:]))
+	case "locals":
+		os.Exit(cmdLocals(os.Args[2:]))
 	default:
 		usage()
 	}
